@@ -139,6 +139,8 @@ impl Arguments<'_> {
                 // User clearly wants return to bash
                 if command_name == "sudo" {
                     println!("Goodbye");
+                    #[cfg(feature = "verif")]
+                    crate::verif::exit_hook(0);
                     std::process::exit(0);
                 }
 
